@@ -159,6 +159,10 @@ func (g *sgen) stmt() Stmt {
 		if r.Chance(1, 2) {
 			lines = append(lines, "")
 		}
+		if r.Chance(1, 2) {
+			// text that looks like a comment / a statement / a prompt but is string data
+			lines = append(lines, []string{"# not a comment", "    # indented, still data", "if x:", ">>> 1", "  ", "\\"}[r.Intn(6)])
+		}
 		lines = append(lines, "  line3"+q+")")
 		return Stmt{Kind: "triple", Lines: lines, Ticks: []int{t}}
 	case x < 31:
@@ -203,6 +207,22 @@ func (g *sgen) stmt() Stmt {
 	}
 }
 
+// decorate inserts comment-only lines inside multi-line statements (inside
+// blocks with any indentation, inside open brackets), which must not change
+// what the statement does nor when it runs.
+func decorate(r *simrt.Rand, st Stmt) Stmt {
+	if len(st.Lines) < 2 || (st.Kind != "compound" && st.Kind != "bracket") || !r.Chance(1, 3) {
+		return st
+	}
+	at := 1 + r.Intn(len(st.Lines)-1)
+	c := []string{"# a comment", "    # indented comment", "\t# tab comment", "        # deep comment"}[r.Intn(4)]
+	lines := append([]string(nil), st.Lines[:at]...)
+	lines = append(lines, c)
+	lines = append(lines, st.Lines[at:]...)
+	st.Lines = lines
+	return st
+}
+
 func (Engine) Gen(seed uint64, idx int, tier string) interface{} {
 	r := simrt.NewRand(simrt.Mix(seed, 0x20, uint64(idx)))
 	g := &sgen{r: r, ind: []string{"    ", "  ", "\t", "        "}[r.Intn(4)]}
@@ -216,7 +236,7 @@ func (Engine) Gen(seed uint64, idx int, tier string) interface{} {
 	}
 	n := 3 + r.Intn(12)
 	for i := 0; i < n; i++ {
-		st := g.stmt()
+		st := decorate(r, g.stmt())
 		if r.Chance(1, 5) {
 			st.Blank = 1 + r.Intn(2)
 		}
